@@ -561,6 +561,12 @@ class Interp:
                         t.used = False
                     out.append(t)
                     return
+                # <local object>.<attr>.extend(E): the whole decoded list goes into the (still empty) container attribute
+                if isinstance(v.func, ast.Attribute) and v.func.attr == "extend" and isinstance(v.func.value, ast.Attribute) and isinstance(v.func.value.value, ast.Name) \
+                        and v.func.value.value.id in self.env and len(v.args) == 1 and not v.keywords and not self.is_stream(v.func.value.value):
+                    arg = self.extract(v.args[0], out) if self.mentions_stream(v.args[0]) else self.ev(v.args[0])
+                    out.append(CallOn(node=st, var=v.func.value.value.id, meth="__extend__:" + v.func.value.attr, args=[arg], kwargs={}))
+                    return
                 # <local object>.<attr>.append(E): the decoder fills a container attribute of the object it is building
                 if isinstance(v.func, ast.Attribute) and v.func.attr == "append" and isinstance(v.func.value, ast.Attribute) and isinstance(v.func.value.value, ast.Name) \
                         and v.func.value.value.id in self.env and len(v.args) == 1 and not v.keywords and not self.is_stream(v.func.value.value):
@@ -597,6 +603,12 @@ class Interp:
                         self.env[t.id] = v
                 return
             self.assign(targets[0], value, st, out)
+            return
+        if isinstance(st, ast.AugAssign) and isinstance(st.op, ast.Add) and isinstance(st.target, ast.Attribute) and isinstance(st.target.value, ast.Name) \
+                and st.target.value.id in self.env and not self.is_stream(st.target.value):
+            # obj.attr += E  on an object built here: extend
+            arg = self.extract(st.value, out) if self.mentions_stream(st.value) else self.ev(st.value)
+            out.append(CallOn(node=st, var=st.target.value.id, meth="__extend__:" + st.target.attr, args=[arg], kwargs={}))
             return
         if isinstance(st, ast.AugAssign):
             if self.mentions_stream(st):
